@@ -64,7 +64,7 @@ Fixpoint gn (fuel : nat) (err : bool) (td : todo) (ex fl : list pend) : option g
               end
           else if err then do_unwind ((pend', idx, mark) :: rest) ex fl
           else match set with
-               | [] => Some RPanic
+               | [] => Some (RNext (o, tc) ((pend', idx, mark) :: rest) ex fl)
                | c :: _ =>
                  Some (RNext (o, c) (((o, tc) :: own_check o p i ++ pend', 1, len ex) :: rest) ex fl)
                end
@@ -283,6 +283,7 @@ Definition procv (o : obj) (tcx : chk) (td : todo) (ex fl : list pend) : stepres
     else
       let ex1 := (o, tcx) :: ex in
       match r_ty c with
+      | TDisj [] => SCont td ex1 fl (Some EValue)
       | TDisj _ => SCont (push_disjunct td (o, rep_chk c)) ex1 fl None
       | _ => arm_ofv td ex1 fl (expand opq oc tc o c)
       end
@@ -296,7 +297,7 @@ Proof.
   assert (H : fst (step_arm opq oc tc td ((o, tcx) :: ex) fl k o tcx c) = arm_ofv td ((o, tcx) :: ex) fl (expand opq oc tc o c)).
   { rewrite step_arm_expand. destruct (expand opq oc tc o c) as [e|x|q|cs]; simpl; try reflexivity.
     destruct (return_check td q); reflexivity. }
-  destruct (r_ty c); try exact H. reflexivity.
+  destruct (r_ty c) as [ | | | | | | alts]; try exact H. destruct alts; reflexivity.
 Qed.
 
 Definition stepv (s : mst) : stepres :=
@@ -571,7 +572,7 @@ Definition ev_elem (q : pend) (ex fl : list pend) : eres :=
   match snd q with
   | CRep (TDisj alts) p i =>
     match alts with
-    | [] => EStop Panicked
+    | [] => ep q ex fl                  (* no options: the work loop reports the mismatch *)
     | _ => match ev_alts (fst q) alts ex fl with
            | EOk ex' fl' => ev_plain (own_check (fst q) p i) ex' fl'
            | x => x
@@ -604,6 +605,7 @@ Fixpoint eval_pair (n : nat) (p : pend) (ex fl : list pend) : eres :=
       else
         let ex1 := p :: ex in
         match r_ty c with
+        | TDisj [] => EFail ex1 fl
         | TDisj _ => ev_set (eval_pair n') [(fst p, rep_chk c)] ex1 fl
         | _ =>
           match expand opq oc tc (fst p) c with
@@ -654,7 +656,7 @@ Qed.
 Lemma ev_elem_ext q ex fl : ext_ok ex fl (ev_elem ep q ex fl).
 Proof.
   unfold ev_elem. destruct (snd q) as [t p i|n]; [|apply ep_ext].
-  destruct t; try apply ep_ext. destruct alts as [|a alts]; [exact I|].
+  destruct t; try apply ep_ext. destruct alts as [|a alts]; [apply ep_ext|].
   pose proof (ev_alts_ext (fst q) (a :: alts) ex fl) as H.
   destruct (ev_alts ep (fst q) (a :: alts) ex fl) as [ex' fl'| | |]; try exact H.
   pose proof (ev_plain_ext (own_check (fst q) p i) ex' fl') as H2.
@@ -685,9 +687,10 @@ Proof.
   cbv zeta.
   assert (HS : forall l, ext_ok ex fl (ev_set (eval_pair n) l (p :: ex) fl)).
   { intros l. apply (ext_cons p). apply ev_set_ext. exact IH. }
-  destruct (r_ty c); try apply HS;
-    (destruct (expand opq oc tc (fst p) c) as [xe|xx|xq|xcs];
-     [ split; [exists [p]; reflexivity | exists []; reflexivity] | exact I | apply (ext_cons p); apply IH | apply HS ]).
+  destruct (r_ty c) as [ | | | | | | alts].
+  7:{ destruct alts; [split; [exists [p]; reflexivity | exists []; reflexivity] | apply HS]. }
+  all: (destruct (expand opq oc tc (fst p) c) as [xe|xx|xq|xcs];
+        [ split; [exists [p]; reflexivity | exists []; reflexivity] | exact I | apply (ext_cons p); apply IH | apply HS ]).
 Qed.
 End Eval.
 
@@ -853,18 +856,21 @@ Lemma S_elem q r m K ex fl emp0 : all_emp emp0 ->
 Proof.
   intros HE.
   apply (res_ok_eqv n _ ((q :: r, 0, m) :: K, ex, fl, None)); [apply eqv_skip_emp; exact HE|].
-  assert (Hplain : is_disj q = false ->
+  assert (Hstep : stepv ((q :: r, 0, m) :: K, ex, fl, None) = procv (fst q) (snd q) ((r, 0, m) :: K) ex fl ->
             res_ok n ((q :: r, 0, m) :: K, ex, fl, None) (fun t => exists m', t = (r, 0, m') :: K) K (ep n q ex fl)).
   { intros Hd.
-    pose proof (HP q ((r, 0, m) :: K) ex fl _ ltac:(discriminate) (stepv_pop q r 0 m K ex fl Hd)) as H.
+    pose proof (HP q ((r, 0, m) :: K) ex fl _ ltac:(discriminate) Hd) as H.
     eapply (res_ok_weaken n _ (eq ((r, 0, m) :: K)) _ ((r, 0, m) :: K) K [(r, 0, m)]); [| reflexivity | constructor; [reflexivity|constructor] | exact H].
     intros t <-. exists m. reflexivity. }
+  assert (Hplain : is_disj q = false ->
+            res_ok n ((q :: r, 0, m) :: K, ex, fl, None) (fun t => exists m', t = (r, 0, m') :: K) K (ep n q ex fl)).
+  { intros Hd. apply Hstep. apply stepv_pop. exact Hd. }
   unfold ev_elem. destruct q as [o tcx]. simpl snd. simpl fst.
   destruct tcx as [t p i|nm]; [|apply Hplain; reflexivity].
   destruct t as [ | p' | e sz | es | ents star | ents | alts]; try (apply Hplain; reflexivity).
   destruct alts as [|a alts].
-  - (* Disjunct([]) *)
-    simpl. exists 1. apply stops_step. reflexivity.
+  - (* Disjunct([]): handed to the work loop like a plain check *)
+    apply Hstep. reflexivity.
   - assert (Hs : stepv ((((o, CRep (TDisj (a :: alts)) p i) :: r, 0, m) :: K), ex, fl, None) =
                  procv o a (((o, CRep (TDisj (a :: alts)) p i) :: own_check o p i ++ r, S (len (@nil chk)), len ex) :: K) ex fl).
     { unfold TypeCheckSim.stepv. simpl is_some. rewrite gnT_open. reflexivity. }
@@ -958,7 +964,9 @@ Proof.
     exists j, (emp ++ [([], 0, m')]), td1. split; [apply all_emp_app; [exact A | constructor; [split; reflexivity|constructor]]|].
     split; [reflexivity|]. rewrite <- app_assoc. exact C. }
   destruct (r_ty c) as [ | p' | e sz | es | ents star | ents | alts] eqn:Ety.
-  7:{ apply Hset. exact Hs. }
+  7:{ destruct alts as [|a0 alts0].
+      - simpl. exists 1, [], EValue. split; [apply Forall_nil|]. apply reach_step. exact Hs.
+      - apply Hset. exact Hs. }
   all: (assert (Hnd : forall alts, r_ty c <> TDisj alts) by (intros alts; rewrite Ety; discriminate);
         destruct (expand opq oc tc o c) as [xe|xx|xq|xcs] eqn:EX; unfold arm_ofv in Hs;
         [ simpl; exists 1, [], xe; split; [apply Forall_nil|]; apply reach_step; exact Hs
